@@ -1195,7 +1195,7 @@ class UTPM(Ring, RawAlgorithmsMixIn):
             return UTPM(numpy.sum(self.data, axis = a))
 
     @classmethod
-    def pb_sum(cls, ybar, x, y, axis, dtype, out2, out = None):
+    def pb_sum(cls, ybar, x, y, axis = None, dtype = None, out2 = None, out = None):
 
         if out is None:
             D,P = x.data.shape[:2]
